@@ -100,6 +100,7 @@ type ContractSet struct {
 	Guarded   []Guarded
 	Monitors  []*Monitor
 	TypeInvs  map[string][]*Clause
+	OpaqueDiv map[string]bool // divisors for which signed division is abstracted (axiomatised)
 	PureVars  map[string]bool // func-typed vars assumed side-effect free
 	Assumes   []string        // free-text assumptions recorded by the file
 	Files     []string
@@ -108,14 +109,14 @@ type ContractSet struct {
 
 func NewContractSet() *ContractSet {
 	return &ContractSet{Funcs: map[string]*Contract{}, Pures: map[string]*PureFn{}, Lemmas: map[string]*Lemma{},
-		Ghosts: map[string]string{}, GhostFlds: map[string]string{}, TypeInvs: map[string][]*Clause{}, PureVars: map[string]bool{}}
+		Ghosts: map[string]string{}, GhostFlds: map[string]string{}, TypeInvs: map[string][]*Clause{}, PureVars: map[string]bool{}, OpaqueDiv: map[string]bool{}}
 }
 
 var clauseKW = map[string]bool{"arith": true, "ghost": true, "pure": true, "opaque": true, "lemma": true, "func": true,
 	"requires": true, "ensures": true, "ensures_panic": true, "modifies": true, "loop": true, "invariant": true,
 	"use": true, "guarded": true, "monitor": true, "typeinv": true, "maypanic": true, "nopanic": true, "trusted": true,
 	"purevar": true, "cover": true, "cases": true, "assumption": true, "property": true, "atomic": true, "inline": true,
-	"havoc": true, "ghostfield": true, "opt": true, "end": true}
+	"havoc": true, "ghostfield": true, "opt": true, "end": true, "opaquediv": true}
 
 type rawLine struct {
 	text string
@@ -151,7 +152,7 @@ func logicalLines(path string, commentOnly bool) ([]rawLine, error) {
 			l = l[:i]
 		}
 		t := strings.TrimSpace(l)
-		if t == "" || strings.HasPrefix(t, "#!") {
+		if t == "" || (!commentOnly && strings.HasPrefix(t, "#")) {
 			continue
 		}
 		first := t
@@ -281,6 +282,11 @@ func (cs *ContractSet) Load(path string, commentOnly bool) error {
 			for _, v := range strings.Fields(strings.ReplaceAll(rest, ",", " ")) {
 				cs.PureVars[v] = true
 			}
+		case "opaquediv":
+			for _, v := range strings.Fields(rest) {
+				cs.OpaqueDiv[v] = true
+			}
+			cs.AssumeCnt++
 		case "assumption":
 			cs.Assumes = append(cs.Assumes, rest)
 		case "pure", "opaque":
